@@ -1,16 +1,1540 @@
 //! C01, C02, C03: binary codec round trip, totality and limits.
 use crate::common::*;
+use crate::gen::{self, BiasedReader};
+use opcua::core::supported_message::SupportedMessage;
+use opcua::types::service_types::*;
+use opcua::types::*;
+use serde_json::json;
+use std::convert::TryFrom;
+use std::fmt::Debug;
+use std::io::Cursor;
+use std::sync::Arc;
 
-pub fn child(_name: &str, _rest: &[String]) -> Option<i32> {
-    None
+include!(concat!(env!("OUT_DIR"), "/all_types.rs"));
+
+pub fn child(name: &str, rest: &[String]) -> Option<i32> {
+    match name {
+        "codec-bomb" => Some(child_bomb(rest)),
+        _ => None,
+    }
 }
 
 pub fn dispatch(args: &Args, rep: &mut Report) -> bool {
     match args.prop.as_str() {
         "C01" => c01(args, rep),
+        "C02" => c02(args, rep),
+        "C03" => c03(args, rep),
         _ => return false,
     }
     true
 }
 
-pub fn c01(_args: &Args, _rep: &mut Report) {}
+fn fresh_options() -> DecodingOptions {
+    DecodingOptions::default()
+}
+
+fn options_with(max_str: usize, max_bs: usize, max_arr: usize, depth: u64) -> DecodingOptions {
+    DecodingOptions {
+        max_string_length: max_str,
+        max_byte_string_length: max_bs,
+        max_array_length: max_arr,
+        decoding_depth_gauge: Arc::new(DepthGauge::new(depth)),
+        ..DecodingOptions::default()
+    }
+}
+
+fn dbg<T: Debug>(v: &T) -> String {
+    format!("{:?}", v)
+}
+
+fn short(s: &str, n: usize) -> String {
+    if s.len() <= n {
+        s.to_string()
+    } else {
+        let mut e = n;
+        while !s.is_char_boundary(e) {
+            e -= 1;
+        }
+        format!("{}…", &s[..e])
+    }
+}
+
+/// Outcome of the round-trip oracle on one value
+enum Rt {
+    Ok { normalised: bool, len: usize },
+    Bad { kind: &'static str, detail: String },
+}
+
+/// The round-trip oracle. `expected` is what decode(encode(v)) must equal (v after the documented
+/// normalisations), or None when only canonical-form stability is demanded (decode-driven values).
+fn round_trip<T>(v: &T, expected: Option<&T>) -> Rt
+where
+    T: BinaryEncoder<T> + Debug + PartialEq,
+{
+    let opts = fresh_options();
+    // 1. predicted length equals bytes written
+    let predicted = match catch(|| v.byte_len()) {
+        Ok(n) => n,
+        Err(p) => {
+            return Rt::Bad {
+                kind: "byte_len-panic",
+                detail: format!("{} at {}:{}", p.msg, p.file, p.line),
+            }
+        }
+    };
+    let mut buf = Cursor::new(Vec::new());
+    let written = match catch(|| v.encode(&mut buf)) {
+        Ok(Ok(n)) => n,
+        Ok(Err(e)) => {
+            return Rt::Bad {
+                kind: "encode-error",
+                detail: format!("encode returned {:?}", e),
+            }
+        }
+        Err(p) => {
+            return Rt::Bad {
+                kind: "encode-panic",
+                detail: format!("{} at {}:{}", p.msg, p.file, p.line),
+            }
+        }
+    };
+    let b1 = buf.into_inner();
+    if written != b1.len() || predicted != b1.len() {
+        return Rt::Bad {
+            kind: "length-mismatch",
+            detail: format!("byte_len()={} encode returned {} bytes written {}", predicted, written, b1.len()),
+        };
+    }
+    // 2. decoder consumes exactly those bytes (a sentinel tail follows)
+    let mut with_tail = b1.clone();
+    with_tail.extend_from_slice(&[0xA5, 0x5A, 0xA5, 0x5A, 0xA5, 0x5A, 0xA5, 0x5A, 0xA5, 0x5A, 0xA5, 0x5A]);
+    let mut cur = Cursor::new(&with_tail[..]);
+    let v2 = match catch(|| T::decode(&mut cur, &opts)) {
+        Ok(Ok(v2)) => v2,
+        Ok(Err(e)) => {
+            return Rt::Bad {
+                kind: "decode-of-own-encoding-failed",
+                detail: format!("decode returned {:?}", e),
+            }
+        }
+        Err(p) => {
+            return Rt::Bad {
+                kind: "decode-panic",
+                detail: format!("{} at {}:{}", p.msg, p.file, p.line),
+            }
+        }
+    };
+    let consumed = cur.position() as usize;
+    if consumed != b1.len() {
+        return Rt::Bad {
+            kind: "stream-desync",
+            detail: format!("encoded {} bytes, decoder consumed {}", b1.len(), consumed),
+        };
+    }
+    // 3. value equality (NaN tolerant through Debug text)
+    let mut normalised = false;
+    match expected {
+        Some(e) => {
+            if v2 != *e && dbg(&v2) != dbg(e) {
+                return Rt::Bad {
+                    kind: "value-changed",
+                    detail: format!("expected {} got {}", short(&dbg(e), 300), short(&dbg(&v2), 300)),
+                };
+            }
+        }
+        None => {
+            if v2 != *v && dbg(&v2) != dbg(v) {
+                normalised = true;
+            }
+        }
+    }
+    // 4. the decoded value is itself a fixed point of encode/decode (it is already normalised, so
+    //    this time equality is exact) and again predicts its length and consumes exactly its bytes
+    let r2 = catch(|| {
+        let predicted = v2.byte_len();
+        let mut c = Cursor::new(Vec::new());
+        let written = v2.encode(&mut c).map_err(|e| format!("re-encode error {:?}", e))?;
+        let mut b2 = c.into_inner();
+        if predicted != b2.len() || written != b2.len() {
+            return Err(format!("second generation: byte_len()={} returned {} written {}", predicted, written, b2.len()));
+        }
+        let n = b2.len();
+        b2.extend_from_slice(&[0x5A; 8]);
+        let mut cur = Cursor::new(&b2[..]);
+        let v3 = T::decode(&mut cur, &opts).map_err(|e| format!("second generation decode failed {:?}", e))?;
+        if cur.position() as usize != n {
+            return Err(format!("second generation: encoded {} bytes, decoder consumed {}", n, cur.position()));
+        }
+        if v3 != v2 && dbg(&v3) != dbg(&v2) {
+            return Err(format!("second generation value changed: {} -> {}", short(&dbg(&v2), 200), short(&dbg(&v3), 200)));
+        }
+        Ok(())
+    });
+    match r2 {
+        Ok(Ok(())) => {}
+        Ok(Err(e)) => {
+            let kind = if e.contains("consumed") {
+                "stream-desync-of-decoded-value"
+            } else if e.contains("byte_len") {
+                "length-mismatch-of-decoded-value"
+            } else {
+                "decoded-value-not-stable"
+            };
+            return Rt::Bad { kind, detail: e };
+        }
+        Err(p) => {
+            return Rt::Bad {
+                kind: "re-encode-panic",
+                detail: format!("{} at {}:{}", p.msg, p.file, p.line),
+            }
+        }
+    }
+    Rt::Ok {
+        normalised,
+        len: b1.len(),
+    }
+}
+
+// ---------------------------------------------------------------------------------------------
+// expected-side normalisation for the built-in types (the documented ones only)
+
+fn norm_lt(l: &LocalizedText) -> LocalizedText {
+    let f = |s: &UAString| if s.is_empty() { UAString::null() } else { s.clone() };
+    LocalizedText {
+        locale: f(&l.locale),
+        text: f(&l.text),
+    }
+}
+
+fn norm_dv(d: &DataValue) -> DataValue {
+    let mut d = d.clone();
+    d.value = d.value.as_ref().map(norm_variant);
+    d
+}
+
+/// Equality for values that may contain empty arrays: their dimensions are not compared
+fn dv_eq_mod_empty_dims(a: &DataValue, b: &DataValue) -> bool {
+    variant_eq_mod_empty_dims(&Variant::DataValue(Box::new(a.clone())), &Variant::DataValue(Box::new(b.clone())))
+}
+
+fn norm_variant(v: &Variant) -> Variant {
+    match v {
+        Variant::LocalizedText(l) => Variant::LocalizedText(Box::new(norm_lt(l))),
+        Variant::Variant(inner) => Variant::Variant(Box::new(norm_variant(inner))),
+        Variant::DataValue(d) => Variant::DataValue(Box::new(norm_dv(d))),
+        Variant::Array(a) => {
+            let values: Vec<Variant> = a.values.iter().map(norm_variant).collect();
+            let dimensions = if values.is_empty() {
+                // documented: dimensions of empty arrays are not preserved
+                Some(Vec::new())
+            } else {
+                a.dimensions.clone()
+            };
+            Variant::Array(Box::new(Array {
+                value_type: a.value_type,
+                values,
+                dimensions,
+            }))
+        }
+        other => other.clone(),
+    }
+}
+
+/// For an empty array any dimensions are acceptable after the round trip
+fn variant_eq_mod_empty_dims(a: &Variant, b: &Variant) -> bool {
+    fn strip(v: &Variant) -> Variant {
+        match v {
+            Variant::Array(a) if a.values.is_empty() => Variant::Array(Box::new(Array {
+                value_type: a.value_type,
+                values: vec![],
+                dimensions: None,
+            })),
+            Variant::Array(a) => Variant::Array(Box::new(Array {
+                value_type: a.value_type,
+                values: a.values.iter().map(strip).collect(),
+                dimensions: a.dimensions.clone(),
+            })),
+            Variant::Variant(i) => Variant::Variant(Box::new(strip(i))),
+            Variant::DataValue(d) => {
+                let mut d = (**d).clone();
+                d.value = d.value.as_ref().map(strip);
+                Variant::DataValue(Box::new(d))
+            }
+            o => o.clone(),
+        }
+    }
+    dbg(&strip(a)) == dbg(&strip(b))
+}
+
+// ---------------------------------------------------------------------------------------------
+// C01
+
+type DrivenFn = fn(&mut Rng, &mut Report) -> Option<(String, String, serde_json::Value)>;
+
+/// Let the real decoder of T pull bytes from the biased generator; every value it accepts is a
+/// valid value of T with arbitrary field contents, which must then round trip.
+fn driven<T>(rng: &mut Rng, rep: &mut Report) -> Option<(String, String, serde_json::Value)>
+where
+    T: BinaryEncoder<T> + Debug + PartialEq,
+{
+    let name = std::any::type_name::<T>().rsplit("::").next().unwrap_or("?").to_string();
+    let opts = fresh_options();
+    let mut rd = BiasedReader::new(rng.fork(1), 4096);
+    let v1 = match catch(|| T::decode(&mut rd, &opts)) {
+        Ok(Ok(v)) => v,
+        Ok(Err(_)) => {
+            rep.count("driven_rejected", 1);
+            return None;
+        }
+        Err(p) => {
+            // decoder panics are C02's business, but they still stop this case
+            rep.count("driven_decode_panics", 1);
+            let _ = p;
+            return None;
+        }
+    };
+    let bytes = rd.produced.clone();
+    let case = json!({"mode": "decode-driven", "type": name, "bytes": hex(&bytes), "class": format!("driven:{}", name)});
+    rep.begin_case(&case);
+    let out = round_trip(&v1, None);
+    match out {
+        Rt::Ok { normalised, len } => {
+            let bucket = if len < 8 { 0 } else if len < 64 { 1 } else if len < 512 { 2 } else { 3 };
+            rep.case(&format!("driven:{}:{}:{}", name, bucket, normalised as u8));
+            if normalised {
+                rep.count("driven_values_normalised_by_round_trip", 1);
+            }
+            rep.count("driven_values_round_tripped", 1);
+            rep.sample(json!({"mode": "decode-driven", "type": name, "encoded_len": len, "value": short(&dbg(&v1), 200)}));
+            None
+        }
+        Rt::Bad { kind, detail } => Some((format!("roundtrip|{}|{}", kind, name), detail, case)),
+    }
+}
+
+macro_rules! driven_table {
+    ($($t:ident,)*) => { &[ $( (stringify!($t), driven::<$t> as DrivenFn), )* ] };
+}
+
+fn driven_types() -> &'static [(&'static str, DrivenFn)] {
+    for_each_service_type!(driven_table)
+}
+
+const BUILTIN_DRIVEN: &[(&str, DrivenFn)] = &[
+    ("Variant", driven::<Variant> as DrivenFn),
+    ("DataValue", driven::<DataValue> as DrivenFn),
+    ("DiagnosticInfo", driven::<DiagnosticInfo> as DrivenFn),
+    ("ExtensionObject", driven::<ExtensionObject> as DrivenFn),
+    ("NodeId", driven::<NodeId> as DrivenFn),
+    ("ExpandedNodeId", driven::<ExpandedNodeId> as DrivenFn),
+    ("LocalizedText", driven::<LocalizedText> as DrivenFn),
+    ("QualifiedName", driven::<QualifiedName> as DrivenFn),
+    ("RequestHeader", driven::<RequestHeader> as DrivenFn),
+    ("ResponseHeader", driven::<ResponseHeader> as DrivenFn),
+    ("Argument", driven::<Argument> as DrivenFn),
+];
+
+fn direct_check<T>(rep: &mut Report, tname: &str, shape: &str, v: &T, expected: &T)
+where
+    T: BinaryEncoder<T> + Debug + PartialEq,
+{
+    let case = json!({"mode": "direct", "type": tname, "shape": shape, "value": short(&dbg(v), 400),
+        "class": format!("direct:{}:{}", tname, shape)});
+    rep.begin_case(&case);
+    match round_trip(v, Some(expected)) {
+        Rt::Ok { len, .. } => {
+            let bucket = if len < 8 { 0 } else if len < 64 { 1 } else { 2 };
+            rep.case(&format!("direct:{}:{}:{}", tname, shape, bucket));
+            rep.sample(json!({"mode": "direct", "type": tname, "shape": shape, "encoded_len": len, "value": short(&dbg(v), 160)}));
+        }
+        Rt::Bad { kind, detail } => {
+            rep.case(&format!("direct:{}:{}", tname, shape));
+            rep.violation(format!("roundtrip|{}|{}|{}", kind, tname, coarse_shape(shape)), detail, case);
+        }
+    }
+}
+
+fn variant_shape(v: &Variant) -> String {
+    match v {
+        Variant::Array(a) => format!(
+            "array[{:?};{}{}]",
+            a.value_type,
+            if a.values.is_empty() { "empty" } else if a.values.len() == 1 { "one" } else { "many" },
+            match &a.dimensions {
+                None => "".to_string(),
+                Some(d) => format!(";dims{}", d.len()),
+            }
+        ),
+        Variant::Variant(i) => format!("variant<{}>", variant_shape(i)),
+        Variant::DataValue(d) => format!(
+            "datavalue<{}>",
+            d.value.as_ref().map(variant_shape).unwrap_or_else(|| "none".into())
+        ),
+        Variant::ExtensionObject(e) => format!(
+            "extobj<{}>",
+            match e.body {
+                ExtensionObjectEncoding::None => "none",
+                ExtensionObjectEncoding::ByteString(_) => "bytes",
+                ExtensionObjectEncoding::XmlElement(_) => "xml",
+            }
+        ),
+        Variant::DiagnosticInfo(d) => format!("diag<inner={}>", d.inner_diagnostic_info.is_some()),
+        o => format!("{:?}", o.type_id()),
+    }
+}
+
+/// The shape with element types removed: what a violation signature is keyed on
+fn coarse_shape(shape: &str) -> String {
+    let mut out = String::new();
+    let mut skip = false;
+    for c in shape.chars() {
+        match c {
+            '[' => {
+                out.push('[');
+                skip = true;
+            }
+            ';' | ']' if skip => {
+                skip = false;
+                out.push(c);
+            }
+            _ if skip => {}
+            _ => out.push(c),
+        }
+    }
+    out
+}
+
+/// Sentinel embedding: [A, v, B] written to one buffer must read back as [A, v', B]
+fn embedded_check(rep: &mut Report, rng: &mut Rng, v: &Variant) {
+    let a = gen::ua_string(rng, 10);
+    let b = (rng.next_u32(), gen::node_id(rng));
+    let case = json!({"mode": "embedded", "value": short(&dbg(v), 400), "class": format!("embedded:{}", variant_shape(v))});
+    rep.begin_case(&case);
+    let r = catch(|| {
+        let mut c = Cursor::new(Vec::new());
+        a.encode(&mut c).ok()?;
+        v.encode(&mut c).ok()?;
+        b.0.encode(&mut c).ok()?;
+        b.1.encode(&mut c).ok()?;
+        let bytes = c.into_inner();
+        let opts = fresh_options();
+        let mut r = Cursor::new(&bytes[..]);
+        let a2 = UAString::decode(&mut r, &opts).ok()?;
+        let _v2 = Variant::decode(&mut r, &opts).ok()?;
+        let b0 = u32::decode(&mut r, &opts).ok();
+        let b1 = NodeId::decode(&mut r, &opts).ok();
+        Some((a2 == a, b0 == Some(b.0) && b1.as_ref() == Some(&b.1), r.position() as usize == bytes.len()))
+    });
+    rep.case(&format!("embedded:{}", variant_shape(v)));
+    match r {
+        Ok(Some((true, true, true))) => {}
+        Ok(Some((_, false, _))) | Ok(Some((_, _, false))) => {
+            rep.violation(
+                format!("roundtrip|embedded-desync|{}", coarse_shape(&variant_shape(v))),
+                "a value written after the variant did not read back: the variant's decoder left the stream at the wrong position",
+                case,
+            );
+        }
+        Ok(_) => {
+            rep.violation(
+                format!("roundtrip|embedded-failed|{}", coarse_shape(&variant_shape(v))),
+                "encoding or decoding the embedded sequence failed",
+                case,
+            );
+        }
+        Err(p) => rep.violation(p.signature(), format!("{} at {}:{}", p.msg, p.file, p.line), case),
+    }
+}
+
+pub fn c01(args: &Args, rep: &mut Report) {
+    let mut rng = Rng::new(args.seed ^ 0xC01 ^ ((args.shard as u64) << 32));
+    rep.max_samples = 8;
+
+    // (a) direct generators for every built-in type
+    let n_direct = args.budget(400_000, 6_000_000);
+    for i in 0..n_direct {
+        match i % 14 {
+            0 => {
+                let v = gen::ua_string(&mut rng, 64);
+                let shape = if v.is_null() { "null" } else if v.is_empty() { "empty" } else { "text" };
+                direct_check(rep, "String", shape, &v, &v);
+            }
+            1 => {
+                let v = gen::byte_string(&mut rng, 64);
+                let shape = if v.is_null() { "null" } else if v.is_empty() { "empty" } else { "bytes" };
+                direct_check(rep, "ByteString", shape, &v, &v);
+            }
+            2 => {
+                let v = gen::date_time(&mut rng);
+                let t = v.ticks();
+                let shape = if t == 0 { "epoch" } else if t >= DateTime::endtimes_ticks() { "endtimes" } else { "mid" };
+                direct_check(rep, "DateTime", shape, &v, &v);
+            }
+            3 => {
+                let v = gen::guid(&mut rng);
+                direct_check(rep, "Guid", "guid", &v, &v);
+            }
+            4 => {
+                let v = gen::node_id(&mut rng);
+                let shape = format!(
+                    "{}:{}",
+                    match v.identifier {
+                        Identifier::Numeric(n) => if n < 256 { "num8" } else if n < 65536 { "num16" } else { "num32" },
+                        Identifier::String(_) => "str",
+                        Identifier::Guid(_) => "guid",
+                        Identifier::ByteString(_) => "bytes",
+                    },
+                    if v.namespace == 0 { "ns0" } else if v.namespace < 256 { "ns8" } else { "ns16" }
+                );
+                direct_check(rep, "NodeId", &shape, &v, &v);
+            }
+            5 => {
+                let v = gen::expanded_node_id(&mut rng);
+                let shape = format!("uri{}:srv{}", !v.namespace_uri.is_null() as u8, (v.server_index != 0) as u8);
+                direct_check(rep, "ExpandedNodeId", &shape, &v, &v);
+            }
+            6 => {
+                let v = gen::qualified_name(&mut rng);
+                direct_check(rep, "QualifiedName", if v.name.is_null() { "null" } else { "name" }, &v, &v);
+            }
+            7 => {
+                let v = gen::localized_text(&mut rng);
+                let shape = format!(
+                    "loc{}:text{}",
+                    if v.locale.is_null() { "null" } else if v.locale.is_empty() { "empty" } else { "set" },
+                    if v.text.is_null() { "null" } else if v.text.is_empty() { "empty" } else { "set" }
+                );
+                let e = norm_lt(&v);
+                direct_check(rep, "LocalizedText", &shape, &v, &e);
+            }
+            8 => {
+                let v = gen::status_code(&mut rng);
+                direct_check(rep, "StatusCode", if v.is_good() { "good" } else { "other" }, &v, &v);
+            }
+            9 => {
+                let v = gen::extension_object(&mut rng, 2);
+                let shape = variant_shape(&Variant::ExtensionObject(Box::new(v.clone())));
+                direct_check(rep, "ExtensionObject", &shape, &v, &v);
+            }
+            10 => {
+                let v = gen::diagnostic_info(&mut rng, 4);
+                let mut depth = 0;
+                let mut cur = &v;
+                while let Some(i) = &cur.inner_diagnostic_info {
+                    depth += 1;
+                    cur = i;
+                }
+                direct_check(rep, "DiagnosticInfo", &format!("depth{}", depth), &v, &v);
+            }
+            11 => {
+                let v = gen::data_value(&mut rng, 2);
+                let e = norm_dv(&v);
+                let shape = format!(
+                    "v{}s{}t{}{}{}{}:{}",
+                    v.value.is_some() as u8,
+                    v.status.is_some() as u8,
+                    v.source_timestamp.is_some() as u8,
+                    v.source_picoseconds.is_some() as u8,
+                    v.server_timestamp.is_some() as u8,
+                    v.server_picoseconds.is_some() as u8,
+                    v.value.as_ref().map(variant_shape).unwrap_or_default()
+                );
+                let case = json!({"mode": "direct", "type": "DataValue", "shape": shape, "value": short(&dbg(&v), 400),
+                    "class": format!("direct:DataValue:{}", shape)});
+                rep.begin_case(&case);
+                rep.case(&format!("direct:DataValue:{}", shape));
+                match round_trip(&v, None) {
+                    Rt::Ok { .. } => {
+                        let v2 = DataValue::decode(&mut Cursor::new(v.encode_to_vec()), &fresh_options()).unwrap();
+                        if !dv_eq_mod_empty_dims(&v2, &e) {
+                            rep.violation(
+                                format!("roundtrip|value-changed|DataValue|{}", coarse_shape(&shape)),
+                                format!("expected {} got {}", short(&dbg(&e), 300), short(&dbg(&v2), 300)),
+                                case,
+                            );
+                        }
+                    }
+                    Rt::Bad { kind, detail } => {
+                        rep.violation(format!("roundtrip|{}|DataValue|{}", kind, coarse_shape(&shape)), detail, case);
+                    }
+                }
+            }
+            _ => {
+                let v = gen::variant(&mut rng, 3);
+                let e = norm_variant(&v);
+                let shape = variant_shape(&v);
+                // empty arrays: any dimensions are acceptable on the way back
+                let case = json!({"mode": "direct", "type": "Variant", "shape": shape, "value": short(&dbg(&v), 400),
+                    "class": format!("direct:Variant:{}", shape)});
+                rep.begin_case(&case);
+                match round_trip(&v, None) {
+                    Rt::Ok { len, .. } => {
+                        // value check against the normalised expectation
+                        let mut c = Cursor::new(v.encode_to_vec());
+                        let v2 = Variant::decode(&mut c, &fresh_options()).unwrap();
+                        rep.case(&format!("direct:Variant:{}:{}", shape, len.min(64) / 16));
+                        if v2 != e && dbg(&v2) != dbg(&e) && !variant_eq_mod_empty_dims(&v2, &e) {
+                            rep.violation(
+                                format!("roundtrip|value-changed|Variant|{}", coarse_shape(&shape)),
+                                format!("expected {} got {}", short(&dbg(&e), 300), short(&dbg(&v2), 300)),
+                                case,
+                            );
+                        } else {
+                            rep.sample(json!({"mode": "direct", "type": "Variant", "shape": shape, "encoded_len": len}));
+                        }
+                    }
+                    Rt::Bad { kind, detail } => {
+                        rep.case(&format!("direct:Variant:{}", shape));
+                        rep.violation(format!("roundtrip|{}|Variant|{}", kind, coarse_shape(&shape)), detail, case);
+                    }
+                }
+                if i % 28 == 12 {
+                    embedded_check(rep, &mut rng, &v);
+                }
+            }
+        }
+    }
+
+    // numeric scalars: exact
+    for _ in 0..args.budget(2_000, 50_000) {
+        macro_rules! num {
+            ($name:expr, $v:expr) => {{
+                let v = $v;
+                direct_check(rep, $name, "num", &v, &v);
+            }};
+        }
+        num!("Boolean", rng.bool());
+        num!("SByte", gen::i8_i(&mut rng));
+        num!("Byte", gen::u8_i(&mut rng));
+        num!("Int16", gen::i16_i(&mut rng));
+        num!("UInt16", gen::u16_i(&mut rng));
+        num!("Int32", gen::i32_i(&mut rng));
+        num!("UInt32", gen::u32_i(&mut rng));
+        num!("Int64", gen::i64_i(&mut rng));
+        num!("UInt64", gen::u64_i(&mut rng));
+        num!("Float", gen::f32_interesting(&mut rng));
+        num!("Double", gen::f64_interesting(&mut rng));
+    }
+
+    // (b) decode-driven values of every generated structure and of the built-in containers
+    let types = driven_types();
+    rep.count("generated_types_enumerated", types.len() as u64);
+    let per_type = args.budget(800, 12_000);
+    for (_name, f) in types.iter().chain(BUILTIN_DRIVEN.iter()) {
+        for _ in 0..per_type {
+            if let Some((sig, detail, case)) = f(&mut rng, rep) {
+                rep.case(&sig);
+                rep.violation(sig, detail, case);
+            }
+        }
+    }
+
+    // (c) every message the stack can decode by object id, through SupportedMessage
+    let ids = supported_object_ids();
+    rep.count("supported_message_types", ids.len() as u64);
+    let per_msg = args.budget(1_600, 24_000);
+    for (oid_num, oid) in ids {
+        for _ in 0..per_msg {
+            let opts = fresh_options();
+            let mut rd = BiasedReader::new(rng.fork(2), 8192);
+            let m1 = match catch(|| SupportedMessage::decode_by_object_id(&mut rd, oid, &opts)) {
+                Ok(Ok(m)) => m,
+                _ => {
+                    rep.count("message_rejected", 1);
+                    continue;
+                }
+            };
+            let bytes = rd.produced.clone();
+            let name = dbg(&m1).split('(').next().unwrap_or("?").to_string();
+            let case = json!({"mode": "message", "object_id": oid_num, "type": name, "bytes": hex(&bytes), "class": format!("msg:{}", name)});
+            rep.begin_case(&case);
+            // encode through the SupportedMessage facade, decode by object id again
+            let r = catch(|| {
+                let predicted = m1.byte_len();
+                let mut c = Cursor::new(Vec::new());
+                let written = m1.encode(&mut c).map_err(|e| format!("encode error {:?}", e))?;
+                let b1 = c.into_inner();
+                if predicted != b1.len() || written != b1.len() {
+                    return Err(format!("length-mismatch byte_len={} returned={} written={}", predicted, written, b1.len()));
+                }
+                let mut tail = b1.clone();
+                tail.extend_from_slice(&[0xA5; 9]);
+                let mut cur = Cursor::new(&tail[..]);
+                let m2 = SupportedMessage::decode_by_object_id(&mut cur, oid, &opts)
+                    .map_err(|e| format!("decode-of-own-encoding-failed {:?}", e))?;
+                if cur.position() as usize != b1.len() {
+                    return Err(format!("stream-desync encoded {} consumed {}", b1.len(), cur.position()));
+                }
+                let b2 = m2.encode_to_vec();
+                let mut t2 = b2.clone();
+                t2.extend_from_slice(&[0x5A; 9]);
+                let mut cur = Cursor::new(&t2[..]);
+                let m3 = SupportedMessage::decode_by_object_id(&mut cur, oid, &opts)
+                    .map_err(|e| format!("decode-of-own-encoding-failed second {:?}", e))?;
+                if cur.position() as usize != b2.len() {
+                    return Err(format!("stream-desync-of-decoded-value encoded {} consumed {}", b2.len(), cur.position()));
+                }
+                if m3 != m2 && dbg(&m3) != dbg(&m2) {
+                    return Err("decoded-value-not-stable".to_string());
+                }
+                Ok(b1.len())
+            });
+            match r {
+                Ok(Ok(len)) => {
+                    rep.case(&format!("msg:{}:{}", name, if len < 64 { 0 } else if len < 512 { 1 } else { 2 }));
+                    rep.count("messages_round_tripped", 1);
+                }
+                Ok(Err(e)) => {
+                    let kind = e.split(' ').next().unwrap_or("?").to_string();
+                    rep.case(&format!("msg:{}", name));
+                    rep.violation(format!("roundtrip|{}|{}", kind, name), e, case);
+                }
+                Err(p) => {
+                    rep.case(&format!("msg:{}", name));
+                    rep.violation(format!("{}|{}", p.signature(), name), format!("{} at {}:{}", p.msg, p.file, p.line), case);
+                }
+            }
+        }
+    }
+}
+
+/// Object ids for which decode_by_object_id knows a decoder (it answers Invalid for the others
+/// without touching the stream)
+fn supported_object_ids() -> Vec<(u32, ObjectId)> {
+    let opts = fresh_options();
+    let mut v = Vec::new();
+    for n in 0u32..30000 {
+        if let Ok(oid) = ObjectId::try_from(n) {
+            let mut empty = Cursor::new(&[][..]);
+            match catch(|| SupportedMessage::decode_by_object_id(&mut empty, oid, &opts)) {
+                Ok(Ok(SupportedMessage::Invalid(_))) => {}
+                _ => v.push((n, oid)),
+            }
+        }
+    }
+    v
+}
+
+// ---------------------------------------------------------------------------------------------
+// C02
+
+type DecodeFn = fn(&[u8], &DecodingOptions) -> Result<bool, PanicInfo>;
+
+fn decode_as<T>(bytes: &[u8], opts: &DecodingOptions) -> Result<bool, PanicInfo>
+where
+    T: BinaryEncoder<T>,
+{
+    catch(|| {
+        let mut c = Cursor::new(bytes);
+        T::decode(&mut c, opts).is_ok()
+    })
+}
+
+macro_rules! decode_table {
+    ($($t:ident,)*) => { &[ $( (stringify!($t), decode_as::<$t> as DecodeFn), )* ] };
+}
+
+macro_rules! max_size_of {
+    ($($t:ident,)*) => { { let mut m = std::mem::size_of::<Variant>().max(std::mem::size_of::<DataValue>()); $( m = m.max(std::mem::size_of::<$t>()); )* m } };
+}
+
+/// size_of the largest decodable structure: what one array slot can cost
+fn largest_element_size() -> usize {
+    for_each_service_type!(max_size_of)
+}
+
+fn decode_types() -> Vec<(&'static str, DecodeFn)> {
+    let mut v: Vec<(&'static str, DecodeFn)> = vec![
+        ("Boolean", decode_as::<bool> as DecodeFn),
+        ("SByte", decode_as::<i8> as DecodeFn),
+        ("Byte", decode_as::<u8> as DecodeFn),
+        ("Int16", decode_as::<i16> as DecodeFn),
+        ("UInt16", decode_as::<u16> as DecodeFn),
+        ("Int32", decode_as::<i32> as DecodeFn),
+        ("UInt32", decode_as::<u32> as DecodeFn),
+        ("Int64", decode_as::<i64> as DecodeFn),
+        ("UInt64", decode_as::<u64> as DecodeFn),
+        ("Float", decode_as::<f32> as DecodeFn),
+        ("Double", decode_as::<f64> as DecodeFn),
+        ("String", decode_as::<UAString> as DecodeFn),
+        ("DateTime", decode_as::<DateTime> as DecodeFn),
+        ("Guid", decode_as::<Guid> as DecodeFn),
+        ("ByteString", decode_as::<ByteString> as DecodeFn),
+        ("NodeId", decode_as::<NodeId> as DecodeFn),
+        ("ExpandedNodeId", decode_as::<ExpandedNodeId> as DecodeFn),
+        ("StatusCode", decode_as::<StatusCode> as DecodeFn),
+        ("QualifiedName", decode_as::<QualifiedName> as DecodeFn),
+        ("LocalizedText", decode_as::<LocalizedText> as DecodeFn),
+        ("ExtensionObject", decode_as::<ExtensionObject> as DecodeFn),
+        ("DataValue", decode_as::<DataValue> as DecodeFn),
+        ("Variant", decode_as::<Variant> as DecodeFn),
+        ("DiagnosticInfo", decode_as::<DiagnosticInfo> as DecodeFn),
+        ("RequestHeader", decode_as::<RequestHeader> as DecodeFn),
+        ("ResponseHeader", decode_as::<ResponseHeader> as DecodeFn),
+        ("Argument", decode_as::<Argument> as DecodeFn),
+    ];
+    let gen_types: &[(&'static str, DecodeFn)] = for_each_service_type!(decode_table);
+    v.extend_from_slice(gen_types);
+    v
+}
+
+fn decode_header_kinds(bytes: &[u8], opts: &DecodingOptions) -> Result<u32, PanicInfo> {
+    use opcua::core::comms::message_chunk::{MessageChunk, MessageChunkHeader};
+    use opcua::core::comms::tcp_types::{AcknowledgeMessage, ErrorMessage, HelloMessage, MessageHeader};
+    catch(|| {
+        let mut ok = 0u32;
+        ok += MessageHeader::decode(&mut Cursor::new(bytes), opts).is_ok() as u32;
+        ok += HelloMessage::decode(&mut Cursor::new(bytes), opts).is_ok() as u32;
+        ok += AcknowledgeMessage::decode(&mut Cursor::new(bytes), opts).is_ok() as u32;
+        ok += ErrorMessage::decode(&mut Cursor::new(bytes), opts).is_ok() as u32;
+        ok += MessageChunkHeader::decode(&mut Cursor::new(bytes), opts).is_ok() as u32;
+        if let Ok(chunk) = MessageChunk::decode(&mut Cursor::new(bytes), opts) {
+            ok += 1;
+            ok += chunk.message_header(opts).is_ok() as u32;
+            ok += chunk.security_header(opts).is_ok() as u32;
+        }
+        ok
+    })
+}
+
+fn decode_via_codec(bytes: &[u8], opts: &DecodingOptions) -> Result<u32, PanicInfo> {
+    use bytes::BytesMut;
+    use opcua::core::comms::tcp_codec::TcpCodec;
+    use tokio_util::codec::Decoder;
+    catch(|| {
+        let mut codec = TcpCodec::new(opts.clone());
+        let mut buf = BytesMut::from(bytes);
+        let mut frames = 0;
+        for _ in 0..64 {
+            match codec.decode(&mut buf) {
+                Ok(Some(_)) => frames += 1,
+                _ => break,
+            }
+        }
+        frames
+    })
+}
+
+/// Mutations of a valid encoding
+fn mutate(rng: &mut Rng, b: &mut Vec<u8>) {
+    if b.is_empty() {
+        b.extend_from_slice(&rng.bytes(4));
+        return;
+    }
+    for _ in 0..1 + rng.usize(3) {
+        let i = rng.usize(b.len());
+        match rng.below(8) {
+            0 => b[i] ^= 1 << rng.below(8),
+            1 => b[i] = rng.next_u32() as u8,
+            2 => b.truncate(i),
+            3 => {
+                let n = rng.usize(8);
+                let extra = rng.bytes(n);
+                b.extend_from_slice(&extra);
+            }
+            4 => {
+                // splice a length field
+                let v: i32 = *rng.pick(&[-1, -2, 0, 1, i32::MAX, i32::MIN, 65535, 65536, 1000, 1001, 0x7fff_fff0]);
+                if i + 4 <= b.len() {
+                    b[i..i + 4].copy_from_slice(&v.to_le_bytes());
+                }
+            }
+            5 => {
+                // repeat a prefix
+                let p: Vec<u8> = b[..i.min(16)].to_vec();
+                let reps = 1 + rng.usize(20);
+                let mut n = Vec::new();
+                for _ in 0..reps {
+                    n.extend_from_slice(&p);
+                }
+                n.extend_from_slice(b);
+                *b = n;
+            }
+            6 => b[i] = *rng.pick(&[0x00, 0xff, 0x80, 0x7f, 0x40, 0xC0, 0x16, 0x17, 0x18, 0x19]),
+            _ => {
+                let j = rng.usize(b.len());
+                b.swap(i, j);
+            }
+        }
+        if b.is_empty() {
+            break;
+        }
+    }
+}
+
+/// Upper bound on what one decode of `len` input bytes may allocate under `opts`. The decoders
+/// reserve `declared length x size_of(element)` for an array whose length passed the
+/// max_array_length check, before reading the elements; structures nest a bounded number of
+/// levels (no recursion through arrays of structures beyond the decoding depth), and everything
+/// retained past a failed element is proportional to the bytes actually present.
+fn alloc_bound(len: usize, opts: &DecodingOptions, elem: usize) -> usize {
+    let levels = 8 + opts.decoding_depth_gauge.max_depth() as usize;
+    let arrays = levels * opts.max_array_length.max(1) * elem;
+    let strings = 2 * opts.max_string_length.max(opts.max_byte_string_length);
+    (1 << 20) + arrays + strings + len * 1024
+}
+
+pub fn c02(args: &Args, rep: &mut Report) {
+    let mut rng = Rng::new(args.seed ^ 0xC02 ^ ((args.shard as u64) << 32));
+    let types = decode_types();
+    let elem = largest_element_size();
+    rep.count("largest_element_size_of", elem as u64);
+    rep.count("decoders_exercised", types.len() as u64 + 9);
+    let ids = supported_object_ids();
+    let optsets: Vec<(&str, DecodingOptions)> = vec![
+        ("default", DecodingOptions::default()),
+        ("minimal", DecodingOptions::minimal()),
+    ];
+
+    // corpus of valid encodings to mutate
+    let mut corpus: Vec<Vec<u8>> = Vec::new();
+    for _ in 0..200 {
+        corpus.push(gen::variant(&mut rng, 3).encode_to_vec());
+        corpus.push(gen::data_value(&mut rng, 2).encode_to_vec());
+        corpus.push(gen::diagnostic_info(&mut rng, 3).encode_to_vec());
+        corpus.push(gen::extension_object(&mut rng, 2).encode_to_vec());
+        corpus.push(gen::expanded_node_id(&mut rng).encode_to_vec());
+    }
+    for (_, oid) in ids.iter() {
+        for _ in 0..3 {
+            let mut rd = BiasedReader::new(rng.fork(3), 4096);
+            if let Ok(Ok(m)) = catch(|| SupportedMessage::decode_by_object_id(&mut rd, *oid, &optsets[0].1)) {
+                corpus.push(m.encode_to_vec());
+            }
+        }
+    }
+    rep.count("valid_corpus_entries", corpus.len() as u64);
+
+    let n = args.budget(150_000, 3_000_000);
+    for i in 0..n {
+        let (oname, opts) = &optsets[(i % 2) as usize];
+        // fresh depth gauge per case: a leaked depth lock would otherwise poison later cases
+        let opts = DecodingOptions {
+            decoding_depth_gauge: Arc::new(DepthGauge::new(opts.decoding_depth_gauge.max_depth())),
+            ..opts.clone()
+        };
+        let (kind, bytes) = match rng.below(10) {
+            0 => {
+                let n = rng.usize(64);
+                ("random", rng.bytes(n))
+            }
+            1 => {
+                let n = rng.usize(600);
+                ("random-long", rng.bytes(n))
+            }
+            2..=3 => {
+                let mut rd = BiasedReader::new(rng.fork(4), 2048);
+                let mut b = vec![0u8; rng.usize(300)];
+                // pull structured-looking bytes in mixed read sizes
+                let mut off = 0;
+                while off < b.len() {
+                    let sz = *rng.pick(&[1usize, 1, 4, 4, 8, 2, 16]);
+                    let end = (off + sz).min(b.len());
+                    let _ = std::io::Read::read(&mut rd, &mut b[off..end]);
+                    off = end;
+                }
+                ("biased", b)
+            }
+            _ => {
+                let mut b = rng.pick(&corpus).clone();
+                mutate(&mut rng, &mut b);
+                ("mutated", b)
+            }
+        };
+        let which = rng.below(12);
+        let (target, outcome): (String, Result<bool, PanicInfo>) = if which < 8 {
+            let (tn, f) = types[rng.usize(types.len())];
+            let case = json!({"kind": kind, "as": tn, "opts": oname, "bytes": hex(&bytes), "class": format!("{}:{}", kind, tn)});
+            rep.begin_case(&case);
+            let start = alloc_count::window_start();
+            let r = f(&bytes, &opts);
+            let (peak, largest) = alloc_count::window_end(start);
+            let bound = alloc_bound(bytes.len(), &opts, elem);
+            if peak > bound {
+                rep.violation(
+                    format!("over-allocation|{}", tn),
+                    format!("decoding {} input bytes as {} allocated {} bytes (largest request {}), bound {}", bytes.len(), tn, peak, largest, bound),
+                    case.clone(),
+                );
+            }
+            (tn.to_string(), r)
+        } else if which < 10 {
+            let (n, oid) = ids[rng.usize(ids.len())];
+            let case = json!({"kind": kind, "as": format!("object_id:{}", n), "opts": oname, "bytes": hex(&bytes), "class": format!("{}:msg", kind)});
+            rep.begin_case(&case);
+            let start = alloc_count::window_start();
+            let r = catch(|| SupportedMessage::decode_by_object_id(&mut Cursor::new(&bytes[..]), oid, &opts).is_ok());
+            let (peak, largest) = alloc_count::window_end(start);
+            let bound = alloc_bound(bytes.len(), &opts, elem);
+            if peak > bound {
+                rep.violation(
+                    format!("over-allocation|message:{:?}", oid),
+                    format!("decoding {} input bytes allocated {} bytes (largest {}), bound {}", bytes.len(), peak, largest, bound),
+                    case.clone(),
+                );
+            }
+            (format!("message:{:?}", oid), r)
+        } else if which == 10 {
+            let case = json!({"kind": kind, "as": "headers", "opts": oname, "bytes": hex(&bytes), "class": format!("{}:headers", kind)});
+            rep.begin_case(&case);
+            ("headers".to_string(), decode_header_kinds(&bytes, &opts).map(|n| n > 0))
+        } else {
+            let case = json!({"kind": kind, "as": "tcp-codec", "opts": oname, "bytes": hex(&bytes), "class": format!("{}:codec", kind)});
+            rep.begin_case(&case);
+            ("tcp-codec".to_string(), decode_via_codec(&bytes, &opts).map(|n| n > 0))
+        };
+        let accepted = matches!(outcome, Ok(true));
+        rep.case(&format!("{}:{}:{}:{}", kind, target, oname, accepted as u8));
+        if accepted {
+            rep.count("inputs_accepted", 1);
+        } else {
+            rep.count("inputs_rejected", 1);
+        }
+        if i % 5000 == 0 {
+            rep.sample(json!({"kind": kind, "as": target, "opts": oname, "len": bytes.len(), "accepted": accepted, "bytes": short(&hex(&bytes), 80)}));
+        }
+        if let Err(p) = outcome {
+            let case = json!({"kind": kind, "as": target, "opts": oname, "bytes": hex(&bytes)});
+            rep.violation(
+                format!("{}|decode-as:{}", p.signature(), target.split(':').next().unwrap_or("")),
+                format!("decoding as {} panicked: {} at {}:{}", target, p.msg, p.file, p.line),
+                case,
+            );
+        }
+        // the depth gauge must be back at zero: a leak would make later messages fail or pass wrongly
+        let _ = opts;
+    }
+
+    // nesting bombs, each in its own process on a 2 MB stack (the tokio worker default)
+    if args.shard == 0 || args.thorough() {
+        bombs(args, rep);
+    }
+}
+
+/// (name, head, repeated prefix, terminator, decoder name)
+fn bomb_patterns() -> Vec<(&'static str, Vec<u8>, Vec<u8>, Vec<u8>, &'static str)> {
+    vec![
+        // DiagnosticInfo: mask 0x40 = has inner diagnostic info
+        ("diag-inner", vec![], vec![0x40], vec![0x00], "DiagnosticInfo"),
+        // Variant holding a Variant: type id 24
+        ("variant-in-variant", vec![], vec![24], vec![1, 1], "Variant"),
+        // Variant holding a DataValue (23) whose mask 0x01 says it has a value
+        ("datavalue-in-variant", vec![], vec![23, 0x01], vec![1, 1], "Variant"),
+        // DataValue with value = Variant(DataValue)
+        ("variant-in-datavalue", vec![], vec![0x01, 23], vec![0x00], "DataValue"),
+        // Variant holding a DiagnosticInfo (25) with a chain of inner infos
+        ("diag-in-variant", vec![25], vec![0x40], vec![0x00], "Variant"),
+        // Variant array of variants, 1 element each: mask 0x80|24, len 1
+        ("variant-array-nest", vec![], vec![0x80 | 24, 1, 0, 0, 0], vec![1, 1], "Variant"),
+        // ExtensionObject body is opaque bytes, so it cannot recurse by itself; a Variant holding an
+        // ExtensionObject (22) with an empty body terminates at once: covered by the random inputs
+    ]
+}
+
+fn bombs(args: &Args, rep: &mut Report) {
+    let default_max = DecodingOptions::default().max_message_size;
+    let depths: Vec<usize> = if args.thorough() {
+        vec![1, 5, 9, 10, 11, 12, 50, 100, 1000, 5000, 20_000, 60_000, 100_000, 200_000, default_max - 16]
+    } else {
+        vec![9, 10, 11, 100, 5000, 60_000, default_max - 16]
+    };
+    let mut idx = 0usize;
+    for (name, _head, prefix, term, dec) in bomb_patterns() {
+        for &d in &depths {
+            for optname in ["default", "minimal"] {
+                idx += 1;
+                if args.thorough() && idx % args.shards != args.shard {
+                    continue;
+                }
+                let reps = (d.min(default_max - 16)) / prefix.len().max(1);
+                let reps = if d <= 12 { d } else { reps.max(1) };
+                let case = json!({"bomb": name, "nesting": reps, "decoder": dec, "opts": optname, "class": format!("bomb:{}:{}", name, if reps <= 12 { "shallow" } else { "deep" })});
+                rep.begin_case(&case);
+                let sub = vec![
+                    "codec-bomb".to_string(),
+                    name.to_string(),
+                    reps.to_string(),
+                    dec.to_string(),
+                    optname.to_string(),
+                ];
+                let r = run_child(&sub, &[], 120_000, 4096);
+                rep.case(&format!("bomb:{}:{}:{}", name, optname, if reps <= 9 { "within-depth" } else if reps <= 12 { "just-over" } else { "deep" }));
+                rep.count("nesting_bombs_run", 1);
+                let _ = (&prefix, &term);
+                if r.timed_out {
+                    rep.inconclusive(format!("bomb {} depth {} timed out", name, reps));
+                    continue;
+                }
+                if let Some(sig) = r.signal {
+                    let what = if r.stderr_tail.contains("overflowed its stack") { "stack-overflow" } else { "signal" };
+                    rep.violation(
+                        format!("crash|{}|bomb:{}|decoder:{}", what, name, dec),
+                        format!("child died on signal {} decoding {} levels of {} as {} with {} options; stderr: {}", sig, reps, name, dec, optname, short(&r.stderr_tail, 200)),
+                        case,
+                    );
+                    continue;
+                }
+                match r.exit_code {
+                    Some(0) => {
+                        // child prints: accepted=<bool> max_depth=<n>
+                        let accepted = r.stdout.contains("accepted=true");
+                        let limit: usize = if optname == "default" { 10 } else { 1 };
+                        // levels of recursive structure presented to the decoder
+                        let levels = reps;
+                        if accepted && levels > limit + 1 {
+                            rep.violation(
+                                format!("depth-not-enforced|bomb:{}|decoder:{}", name, dec),
+                                format!("{} nested levels of {} were accepted although the decoding depth limit is {}", levels, name, limit),
+                                case,
+                            );
+                        } else {
+                            rep.count(if accepted { "bombs_accepted_within_depth" } else { "bombs_rejected" }, 1);
+                        }
+                    }
+                    Some(3) => {
+                        rep.violation(
+                            format!("panic|bomb:{}|decoder:{}", name, dec),
+                            format!("decoder panicked on {} levels: {}", reps, short(&r.stdout, 300)),
+                            case,
+                        );
+                    }
+                    other => rep.inconclusive(format!("bomb child exit {:?}: {}", other, short(&r.stderr_tail, 200))),
+                }
+            }
+        }
+    }
+}
+
+fn child_bomb(rest: &[String]) -> i32 {
+    let name = rest.first().cloned().unwrap_or_default();
+    let reps: usize = rest.get(1).and_then(|s| s.parse().ok()).unwrap_or(1);
+    let dec = rest.get(2).cloned().unwrap_or_default();
+    let optname = rest.get(3).cloned().unwrap_or_default();
+    let (head, prefix, term) = match bomb_patterns().into_iter().find(|p| p.0 == name) {
+        Some(p) => (p.1, p.2, p.3),
+        None => return 2,
+    };
+    let mut bytes = Vec::with_capacity(reps * prefix.len() + term.len() + head.len());
+    bytes.extend_from_slice(&head);
+    for _ in 0..reps {
+        bytes.extend_from_slice(&prefix);
+    }
+    bytes.extend_from_slice(&term);
+    let opts = if optname == "minimal" { DecodingOptions::minimal() } else { DecodingOptions::default() };
+    // decode on a thread with the stack a tokio worker has
+    let h = std::thread::Builder::new()
+        .stack_size(2 * 1024 * 1024)
+        .spawn(move || {
+            let r = catch(|| match dec.as_str() {
+                "DiagnosticInfo" => DiagnosticInfo::decode(&mut Cursor::new(&bytes[..]), &opts).is_ok(),
+                "DataValue" => DataValue::decode(&mut Cursor::new(&bytes[..]), &opts).is_ok(),
+                _ => Variant::decode(&mut Cursor::new(&bytes[..]), &opts).is_ok(),
+            });
+            match r {
+                Ok(a) => {
+                    println!("accepted={}", a);
+                    0
+                }
+                Err(p) => {
+                    println!("panic {} at {}:{}", p.msg, p.file, p.line);
+                    3
+                }
+            }
+        })
+        .unwrap();
+    h.join().unwrap_or(4)
+}
+
+// ---------------------------------------------------------------------------------------------
+// C03
+
+#[derive(Clone, Copy, Debug, PartialEq)]
+enum Kind {
+    Str,
+    Bytes,
+    ArrI32,
+    VariantArr,
+    VariantArrMulti,
+    ArrStruct,
+}
+
+#[derive(Clone, Copy, Debug, PartialEq)]
+enum Nest {
+    Top,
+    InVariant,
+    InDataValue,
+    InArrayElement,
+    InStructField,
+    InExtensionObjectBody,
+}
+
+/// Encodes an item of `kind` declaring length `l` with a full body of max(l,0) elements
+fn item_bytes(kind: Kind, l: i64) -> Vec<u8> {
+    let n = l.max(0) as usize;
+    let mut b = Vec::with_capacity(n * 4 + 16);
+    let li = l as i32;
+    match kind {
+        Kind::Str => {
+            b.extend_from_slice(&li.to_le_bytes());
+            b.extend(std::iter::repeat(b'x').take(n));
+        }
+        Kind::Bytes => {
+            b.extend_from_slice(&li.to_le_bytes());
+            b.extend(std::iter::repeat(0x42u8).take(n));
+        }
+        Kind::ArrI32 => {
+            b.extend_from_slice(&li.to_le_bytes());
+            for i in 0..n {
+                b.extend_from_slice(&(i as i32).to_le_bytes());
+            }
+        }
+        Kind::ArrStruct => {
+            // array of ReadValueId-like small structs is awkward to hand-encode; use NodeId (2 bytes each: 0x00, id)
+            b.extend_from_slice(&li.to_le_bytes());
+            for i in 0..n {
+                b.push(0x00);
+                b.push(i as u8);
+            }
+        }
+        Kind::VariantArr => {
+            b.push(0x80 | 6); // array of Int32
+            b.extend_from_slice(&li.to_le_bytes());
+            for i in 0..n {
+                b.extend_from_slice(&(i as i32).to_le_bytes());
+            }
+        }
+        Kind::VariantArrMulti => {
+            b.push(0xC0 | 6);
+            b.extend_from_slice(&li.to_le_bytes());
+            for i in 0..n {
+                b.extend_from_slice(&(i as i32).to_le_bytes());
+            }
+            // one dimension equal to the length
+            b.extend_from_slice(&1i32.to_le_bytes());
+            b.extend_from_slice(&(n as i32).to_le_bytes());
+        }
+    }
+    b
+}
+
+/// Decodes the item at the given nesting position; Ok(true) = accepted
+fn decode_item(kind: Kind, nest: Nest, body: &[u8], opts: &DecodingOptions) -> Result<Result<(), StatusCode>, PanicInfo> {
+    // wrap the item bytes so that the real decoder of the enclosing type meets them at that position
+    let mut w: Vec<u8> = Vec::with_capacity(body.len() + 32);
+    let top = |kind: Kind, bytes: &[u8], opts: &DecodingOptions| -> Result<(), StatusCode> {
+        let mut c = Cursor::new(bytes);
+        match kind {
+            Kind::Str => UAString::decode(&mut c, opts).map(|_| ()),
+            Kind::Bytes => ByteString::decode(&mut c, opts).map(|_| ()),
+            Kind::ArrI32 => read_array::<_, i32>(&mut c, opts).map(|_| ()),
+            Kind::ArrStruct => read_array::<_, NodeId>(&mut c, opts).map(|_| ()),
+            Kind::VariantArr | Kind::VariantArrMulti => Variant::decode(&mut c, opts).map(|_| ()),
+        }
+    };
+    let variant_type_byte = |kind: Kind| -> Option<u8> {
+        match kind {
+            Kind::Str => Some(12),
+            Kind::Bytes => Some(15),
+            _ => None,
+        }
+    };
+    catch(|| match nest {
+        Nest::Top => top(kind, body, opts),
+        Nest::InVariant => match kind {
+            Kind::Str | Kind::Bytes => {
+                w.push(variant_type_byte(kind).unwrap());
+                w.extend_from_slice(body);
+                Variant::decode(&mut Cursor::new(&w[..]), opts).map(|_| ())
+            }
+            Kind::VariantArr | Kind::VariantArrMulti => {
+                // variant array inside a DataValue inside a Variant
+                w.push(23);
+                w.push(0x01);
+                w.extend_from_slice(body);
+                Variant::decode(&mut Cursor::new(&w[..]), opts).map(|_| ())
+            }
+            _ => top(kind, body, opts),
+        },
+        Nest::InDataValue => match kind {
+            Kind::Str | Kind::Bytes => {
+                w.push(0x01);
+                w.push(variant_type_byte(kind).unwrap());
+                w.extend_from_slice(body);
+                DataValue::decode(&mut Cursor::new(&w[..]), opts).map(|_| ())
+            }
+            Kind::VariantArr | Kind::VariantArrMulti => {
+                w.push(0x01);
+                w.extend_from_slice(body);
+                DataValue::decode(&mut Cursor::new(&w[..]), opts).map(|_| ())
+            }
+            _ => top(kind, body, opts),
+        },
+        Nest::InArrayElement => match kind {
+            Kind::Str | Kind::Bytes => {
+                // variant array with one element of this kind
+                w.push(0x80 | variant_type_byte(kind).unwrap());
+                w.extend_from_slice(&1i32.to_le_bytes());
+                w.extend_from_slice(body);
+                Variant::decode(&mut Cursor::new(&w[..]), opts).map(|_| ())
+            }
+            _ => top(kind, body, opts),
+        },
+        Nest::InStructField => match kind {
+            Kind::Str => {
+                // QualifiedName { u16 ns, String name }
+                w.extend_from_slice(&7u16.to_le_bytes());
+                w.extend_from_slice(body);
+                QualifiedName::decode(&mut Cursor::new(&w[..]), opts).map(|_| ())
+            }
+            Kind::Bytes => {
+                // SignatureData { String algorithm, ByteString signature }
+                w.extend_from_slice(&(-1i32).to_le_bytes());
+                w.extend_from_slice(body);
+                SignatureData::decode(&mut Cursor::new(&w[..]), opts).map(|_| ())
+            }
+            Kind::ArrStruct => {
+                // UnregisterNodesRequest { RequestHeader, NodeId[] }
+                let rh = RequestHeader::dummy();
+                w.extend_from_slice(&rh.encode_to_vec());
+                w.extend_from_slice(body);
+                UnregisterNodesRequest::decode(&mut Cursor::new(&w[..]), opts).map(|_| ())
+            }
+            Kind::ArrI32 => {
+                // DeleteSubscriptionsRequest { RequestHeader, UInt32[] }
+                let rh = RequestHeader::dummy();
+                w.extend_from_slice(&rh.encode_to_vec());
+                w.extend_from_slice(body);
+                DeleteSubscriptionsRequest::decode(&mut Cursor::new(&w[..]), opts).map(|_| ())
+            }
+            Kind::VariantArr | Kind::VariantArrMulti => {
+                // WriteValue { NodeId, u32 attr, String range, DataValue }
+                w.extend_from_slice(&[0x00, 0x01]);
+                w.extend_from_slice(&13u32.to_le_bytes());
+                w.extend_from_slice(&(-1i32).to_le_bytes());
+                w.push(0x01);
+                w.extend_from_slice(body);
+                WriteValue::decode(&mut Cursor::new(&w[..]), opts).map(|_| ())
+            }
+        },
+        Nest::InExtensionObjectBody => match kind {
+            Kind::Bytes => {
+                // ExtensionObject: NodeId (two byte), encoding 1, ByteString body
+                w.extend_from_slice(&[0x00, 0x00, 0x01]);
+                w.extend_from_slice(body);
+                ExtensionObject::decode(&mut Cursor::new(&w[..]), opts).map(|_| ())
+            }
+            Kind::Str => {
+                // XML body
+                w.extend_from_slice(&[0x00, 0x00, 0x02]);
+                w.extend_from_slice(body);
+                ExtensionObject::decode(&mut Cursor::new(&w[..]), opts).map(|_| ())
+            }
+            _ => top(kind, body, opts),
+        },
+    })
+}
+
+pub fn c03(args: &Args, rep: &mut Report) {
+    let kinds = [Kind::Str, Kind::Bytes, Kind::ArrI32, Kind::ArrStruct, Kind::VariantArr, Kind::VariantArrMulti];
+    let nests = [
+        Nest::Top,
+        Nest::InVariant,
+        Nest::InDataValue,
+        Nest::InArrayElement,
+        Nest::InStructField,
+        Nest::InExtensionObjectBody,
+    ];
+    let def = DecodingOptions::default();
+    let mut limits: Vec<usize> = vec![0, 1, 7, 100, 8192];
+    let mut idx = 0usize;
+    for &kind in &kinds {
+        let deflimit = match kind {
+            Kind::Str => def.max_string_length,
+            Kind::Bytes => def.max_byte_string_length,
+            _ => def.max_array_length,
+        };
+        limits.push(deflimit);
+        limits.sort();
+        limits.dedup();
+        for &limit in &limits {
+            let opts = match kind {
+                Kind::Str => options_with(limit, 1 << 20, 1 << 20, 10),
+                Kind::Bytes => options_with(1 << 20, limit, 1 << 20, 10),
+                _ => options_with(1 << 20, 1 << 20, limit, 10),
+            };
+            let mut lens: Vec<i64> = vec![-2, -1, 0, 1, limit as i64 - 1, limit as i64, limit as i64 + 1, limit as i64 + 2, i32::MAX as i64, i32::MIN as i64];
+            lens.retain(|l| *l >= i32::MIN as i64);
+            lens.sort();
+            lens.dedup();
+            for &l in &lens {
+                for &nest in &nests {
+                    idx += 1;
+                    if idx % args.shards != args.shard {
+                        continue;
+                    }
+                    // body supplied in full unless that would be absurd (then the decoder must
+                    // reject on the declared length alone, before reading a body)
+                    let body_len = if l > (1 << 21) { 0 } else { l };
+                    let mut body = item_bytes(kind, body_len);
+                    if l != body_len {
+                        // patch declared length
+                        let off = match kind {
+                            Kind::VariantArr | Kind::VariantArrMulti => 1,
+                            _ => 0,
+                        };
+                        body[off..off + 4].copy_from_slice(&(l as i32).to_le_bytes());
+                    }
+                    let case = json!({"kind": format!("{:?}", kind), "nest": format!("{:?}", nest), "limit": limit, "declared_len": l,
+                        "class": format!("{:?}:{:?}", kind, nest)});
+                    rep.begin_case(&case);
+                    let start = alloc_count::window_start();
+                    let r = decode_item(kind, nest, &body, &opts);
+                    let (peak, _) = alloc_count::window_end(start);
+                    let rel = if l < -1 { "neg" } else if l == -1 { "null" } else if (l as usize) < limit { "below" } else if l as usize == limit { "at" } else { "above" };
+                    rep.case(&format!("{:?}:{:?}:limit{}:{}", kind, nest, limit, rel));
+                    rep.sample(case.clone());
+                    // expectation from the property: within the maximum => accepted, above => rejected.
+                    // -1 is the null encoding (accepted); other negatives are malformed (rejected).
+                    let expect_accept = if l == -1 {
+                        true
+                    } else if l < -1 {
+                        // variant arrays treat any non-positive length as the null/empty array; strings reject
+                        match kind {
+                            Kind::VariantArr | Kind::VariantArrMulti | Kind::ArrI32 | Kind::ArrStruct => false,
+                            _ => false,
+                        }
+                    } else {
+                        (l as usize) <= limit
+                    };
+                    match r {
+                        Err(p) => rep.violation(
+                            format!("{}|limit:{:?}:{:?}", p.signature(), kind, nest),
+                            format!("panic: {} at {}:{}", p.msg, p.file, p.line),
+                            case,
+                        ),
+                        Ok(res) => {
+                            let accepted = res.is_ok();
+                            if l > (1 << 21) && peak > (8 << 20) {
+                                rep.violation(
+                                    format!("limit|allocated-before-check|{:?}:{:?}", kind, nest),
+                                    format!("declared length {} made the decoder allocate {} bytes", l, peak),
+                                    case.clone(),
+                                );
+                            }
+                            if accepted != expect_accept {
+                                // multi-dimensional empty array: dimensions [0] are rejected by design of the
+                                // encoding (a zero dimension), not by the limit; exclude l == 0 there
+                                if kind == Kind::VariantArrMulti && l <= 0 {
+                                    continue;
+                                }
+                                if l < -1 {
+                                    // malformed negative lengths: the property only speaks of exceeding /
+                                    // within the maximum; record but do not judge
+                                    rep.count(if accepted { "negative_length_accepted" } else { "negative_length_rejected" }, 1);
+                                    continue;
+                                }
+                                rep.violation(
+                                    format!("limit|{}|{:?}:{:?}", if accepted { "over-limit-accepted" } else { "within-limit-rejected" }, kind, nest),
+                                    format!("declared length {} with limit {}: {:?}", l, limit, res.err()),
+                                    case,
+                                );
+                            } else {
+                                rep.count(if accepted { "accepted_within_limit" } else { "rejected_over_limit" }, 1);
+                            }
+                        }
+                    }
+                }
+            }
+        }
+        limits.retain(|l| *l != deflimit || [0, 1, 7, 100, 8192].contains(l));
+    }
+
+    // chunk size: declared message_size around max_message_size, with a counting reader
+    chunk_limits(args, rep);
+}
+
+struct CountingReader<'a> {
+    inner: Cursor<&'a [u8]>,
+    pulled: usize,
+}
+
+impl<'a> std::io::Read for CountingReader<'a> {
+    fn read(&mut self, buf: &mut [u8]) -> std::io::Result<usize> {
+        let n = self.inner.read(buf)?;
+        self.pulled += n;
+        Ok(n)
+    }
+}
+
+fn chunk_limits(args: &Args, rep: &mut Report) {
+    use bytes::BytesMut;
+    use opcua::core::comms::message_chunk::{MessageChunk, MESSAGE_CHUNK_HEADER_SIZE};
+    use opcua::core::comms::tcp_codec::TcpCodec;
+    use tokio_util::codec::Decoder;
+    if args.shard != 0 {
+        return;
+    }
+    for &max in &[0usize, 64, 100, 8192, 65535, 327675] {
+        for delta in [-2i64, -1, 0, 1, 2, 1000, i32::MAX as i64] {
+            let declared: u64 = if delta == i32::MAX as i64 { u32::MAX as u64 } else { (max as i64 + delta).max(12) as u64 };
+            if max == 0 && delta != 1 && delta != i32::MAX as i64 {
+                continue;
+            }
+            let opts = DecodingOptions {
+                max_message_size: max,
+                ..DecodingOptions::default()
+            };
+            // a MSG F chunk with that declared size; body present in full when small enough
+            let body_len = if declared > (1 << 20) { 64 } else { declared as usize - 12 };
+            let mut b = Vec::with_capacity(12 + body_len);
+            b.extend_from_slice(b"MSGF");
+            b.extend_from_slice(&(declared as u32).to_le_bytes());
+            b.extend_from_slice(&1u32.to_le_bytes());
+            b.extend(std::iter::repeat(0u8).take(body_len));
+            let case = json!({"chunk": true, "max_message_size": max, "declared": declared, "class": "chunk-size"});
+            rep.begin_case(&case);
+            let mut rd = CountingReader { inner: Cursor::new(&b[..]), pulled: 0 };
+            let r = catch(|| MessageChunk::decode(&mut rd, &opts).map(|_| ()));
+            let pulled = rd.pulled;
+            let rel = if max == 0 { "unlimited" } else if declared as usize <= max { "within" } else { "above" };
+            rep.case(&format!("chunk:max{}:{}", max, rel));
+            let expect_accept = max == 0 && declared < (1 << 20) || (max > 0 && declared as usize <= max);
+            match r {
+                Err(p) => rep.violation(format!("{}|chunk-size", p.signature()), format!("{} at {}:{}", p.msg, p.file, p.line), case.clone()),
+                Ok(res) => {
+                    if res.is_ok() && max > 0 && declared as usize > max {
+                        rep.violation("limit|over-limit-accepted|chunk", format!("declared {} > max {}", declared, max), case.clone());
+                    } else if res.is_err() && expect_accept {
+                        rep.violation("limit|within-limit-rejected|chunk", format!("declared {} <= max {}: {:?}", declared, max, res.err()), case.clone());
+                    } else if res.is_err() && max > 0 && declared as usize > max && pulled > MESSAGE_CHUNK_HEADER_SIZE {
+                        rep.violation(
+                            "limit|body-read-before-rejection|chunk",
+                            format!("declared {} > max {} but {} bytes were pulled from the stream before rejecting", declared, max, pulled),
+                            case.clone(),
+                        );
+                    } else {
+                        rep.count("chunk_size_cases_ok", 1);
+                    }
+                }
+            }
+            // same frame through the framing codec
+            let mut codec = TcpCodec::new(opts.clone());
+            let mut buf = BytesMut::from(&b[..]);
+            let r = catch(|| codec.decode(&mut buf));
+            rep.case(&format!("codec:max{}:{}", max, rel));
+            match r {
+                Err(p) => rep.violation(format!("{}|codec-size", p.signature()), format!("{} at {}:{}", p.msg, p.file, p.line), case),
+                Ok(Ok(Some(_))) if max > 0 && declared as usize > max => {
+                    rep.violation("limit|over-limit-accepted|codec", format!("declared {} > max {}", declared, max), case)
+                }
+                Ok(Ok(None)) if max > 0 && declared as usize > max => rep.violation(
+                    "limit|over-limit-awaited|codec",
+                    format!("codec keeps waiting for a frame of declared size {} > max {}", declared, max),
+                    case,
+                ),
+                Ok(Err(_)) if expect_accept => rep.violation("limit|within-limit-rejected|codec", format!("declared {} max {}", declared, max), case),
+                _ => rep.count("codec_size_cases_ok", 1),
+            }
+        }
+    }
+}
